@@ -127,6 +127,39 @@ func (c *Ctx) Merge(o *Ctx, cfg string) {
 	}
 }
 
+// Borrow evaluates another pack's rules (once per loaded program; name identifies the pack) and takes over the
+// obligations and floors whose id is in remap under the new id - the same structural condition is necessary for more
+// than one property. The rule text of the new id must have been declared with Rule.
+func (c *Ctx) Borrow(name string, run func(*Ctx), remap map[string]string) {
+	if c.P.packCache == nil {
+		c.P.packCache = map[string]*Ctx{}
+	}
+	sub := c.P.packCache[name]
+	if sub == nil {
+		sub = &Ctx{P: c.P, Property: c.Property, Tier: c.Tier}
+		run(sub)
+		c.P.packCache[name] = sub
+	}
+	for _, ob := range sub.Obs {
+		if nid := remap[ob.ID]; nid != "" {
+			if strings.HasPrefix(ob.Rule, "anchor:") || strings.HasPrefix(ob.Rule, "floor:") {
+				// keep the generic text
+			} else {
+				ob.Rule = c.rules[nid]
+			}
+			ob.Detail = ob.Detail + " [rule shared with " + ob.ID + "]"
+			ob.ID = nid
+			c.Obs = append(c.Obs, ob)
+		}
+	}
+	for _, f := range sub.Floors {
+		if nid := remap[f.ID]; nid != "" {
+			f.ID = nid
+			c.Floors = append(c.Floors, f)
+		}
+	}
+}
+
 func (c *Ctx) Note(f string, a ...any) { c.Notes = append(c.Notes, fmt.Sprintf(f, a...)) }
 
 // LoadFindings reads known_findings.jsonl.
